@@ -355,6 +355,180 @@ def _cmp(name, got, exp, tol):
     return None
 
 
+# --------------------------------------------------------------------------- #
+#        sampler oracle: the conditionals that are drawn from / cached        #
+# --------------------------------------------------------------------------- #
+
+
+def _sample_opts(opt):
+    """None | (key, value) | ((key, value), ...) -> tuple of pairs"""
+    if opt is None:
+        return ()
+    if isinstance(opt[0], str):
+        return (tuple(opt),)
+    return tuple(tuple(o) for o in opt)
+
+
+class DrawRecorder:
+    """Harness-side seam: every sampler draws its bits through
+    ``sample_bitstring_from_prob_ndarray(p, seed)`` (imported by name into the
+    ``exact`` and ``mps`` modules).  While a sampler query runs, that name is
+    wrapped to RECORD the probability array each draw used; the real function
+    still does the drawing.  Nothing in quimb is changed outside the ``with``."""
+
+    NAME = "sample_bitstring_from_prob_ndarray"
+
+    def __enter__(self):
+        import importlib
+
+        self.draws = []
+        self.saved = []
+        for modname in ("quimb.tensor.circuit.exact", "quimb.tensor.circuit.mps"):
+            try:
+                mod = importlib.import_module(modname)
+            except ImportError:
+                continue
+            fn = getattr(mod, self.NAME, None)
+            if fn is None:
+                continue
+            self.saved.append((mod, fn))
+
+            def wrap(p, seed=None, _fn=fn):
+                b = _fn(p, seed=seed)
+                self.draws.append((np.array(np.asarray(p), dtype=float), str(b)))
+                return b
+
+            setattr(mod, self.NAME, wrap)
+        self.active = bool(self.saved)
+        return self
+
+    def __exit__(self, *exc):
+        for mod, fn in self.saved:
+            setattr(mod, self.NAME, fn)
+        return False
+
+
+def cond_ref(psi, where, prior, N):
+    """(p(where | prior) as an array with one axis per qubit of ``where``,
+    p(prior)) from the reference state"""
+    joint = tb.joint_prob(psi, tuple(where), {int(q): str(b) for q, b in prior.items()} or None, N)
+    tot = float(joint.sum())
+    return (joint / tot if tot > 0 else joint), tot
+
+
+def _cmp_cond(what, p, where, prior, psi, N):
+    """None | message | 'thin' (prior too unlikely for a single precision
+    conditional to be asserted with a 10x margin)"""
+    ref, pp = cond_ref(psi, where, prior, N)
+    scale = pp * 2 ** len(prior)  # compute_marginal rescales by 2**len(fix)
+    if scale < 1e-2:
+        return "thin"
+    p = np.asarray(p, dtype=float)
+    if p.size != ref.size:
+        return "%s: conditional of %r given %r has %d entries" % (what, where, prior, p.size)
+    p = p.reshape(ref.shape)
+    tot = float(p.sum())
+    if not np.isfinite(tot) or tot <= 0:
+        return "%s: conditional of %r given %r sums to %r" % (what, where, prior, tot)
+    err = float(np.max(np.abs(p / tot - ref)))
+    if err > TOL32 / min(1.0, scale):
+        return "%s: qubits %r given %r: distribution %s, but the state has p(%r | %r) = %s (max abs error %.3e)" % (what, where, dict(sorted(prior.items())), np.round(p / tot, 4).reshape(-1).tolist(), where, dict(sorted(prior.items())), np.round(ref, 4).reshape(-1).tolist(), err)
+    return None
+
+
+def check_draws(rec, out, qubits, groups, psi, N, what, given_rest=False):
+    """Every yielded string was built group by group, each group drawn from a
+    probability array: that array must be the reference conditional of the
+    group given the bits drawn before it (sample) / given all other qubits
+    (sample_chaotic).  The grouping is the documented one (the order cut into
+    group_size pieces, sorted inside a piece); if the recorded draws do not fit
+    that picture the harness says so and asserts support only."""
+    if not rec.active:
+        return None, "support-only(no-draw-seam)"
+    G = len(groups)
+    if len(rec.draws) != len(out) * G:
+        return None, "support-only(draw-count)"
+    n = thin = 0
+    for s_i, b in enumerate(out):
+        val = {q: b[i] for i, q in enumerate(qubits)}
+        prior = {q: val[q] for q in qubits if q not in groups[0]} if given_rest else {}
+        for j, where in enumerate(groups):
+            p, bits = rec.draws[s_i * G + j]
+            if p.ndim != len(where) or len(bits) != len(where) or any(bits[i] != val[q] for i, q in enumerate(where)):
+                return None, "support-only(grouping)"
+            m = _cmp_cond(what + " drew", p, where, prior, psi, N)
+            if m == "thin":
+                thin += 1
+            elif m:
+                return m, "draws"
+            else:
+                n += 1
+            if not given_rest:
+                prior.update({q: val[q] for q in where})
+    return None, "draws%s" % ("-thin" if thin and not n else "")
+
+
+def _known_layout(key):
+    try:
+        where, prior = key
+        return isinstance(where, tuple) and all(isinstance(q, (int, np.integer)) for q in where) and isinstance(prior, tuple) and all(isinstance(x, tuple) and len(x) == 2 and isinstance(x[0], (int, np.integer)) and str(x[1]) in ("0", "1") for x in prior)
+    except Exception:
+        return False
+
+
+def check_cond_cache(cache, psi, N, what):
+    """circ._sampled_conditionals: key (where, ((q, b), ...)) -> probability
+    array of ``where`` given those earlier results.  EVERY entry must be the
+    reference conditional of exactly that meaning.  Unknown layout -> nothing
+    asserted, reported in the outcome."""
+    if cache is None or not isinstance(cache, dict):
+        return None, "cache-unreadable"
+    if not all(_known_layout(k) for k in cache):
+        return None, "cache-layout-unknown"
+    for key in sorted(cache, key=repr):
+        where, prior = key
+        m = _cmp_cond(what + ": cached conditional", cache[key], tuple(int(q) for q in where), {int(q): str(b) for q, b in prior}, psi, N)
+        if m and m != "thin":
+            return m, "cache"
+    return None, "cache%d" % min(len(cache), 9)
+
+
+def check_gbg_caches(w, c, gs, what):
+    """gate-by-gate sampling keeps one sub-circuit per group, each with its own
+    conditionals cache: every cached entry must be the conditional of the state
+    defined by THAT sub-circuit's recorded gates (textbook matrices)."""
+    if w.spec.get("psi0") is not None:
+        return None, "support-only(psi0)"  # sub-circuits start from |0..0>: open finding
+    try:
+        subs = c._storage[("gate_by_gate_circuits", gs)]
+        items = [(d["circuit"], tuple(d["where"])) for d in subs]
+    except Exception:
+        return None, "cache-unreadable"
+    n = 0
+    for sub, where in items:
+        psi = psi0_vector(None, w.N)
+        for g in sub.gates:
+            label = g.label
+            if label.startswith("RAW"):
+                label = "RAW%d" % len(g.qubits)
+                if not np.allclose(np.asarray(g.array).reshape(2 ** len(g.qubits), -1), raw_matrix(label)):
+                    return None, "support-only(raw)"
+                params = ()
+            else:
+                params = tuple(float(x) for x in np.asarray(g.params, dtype=float).reshape(-1))
+            M, wh = g_full((label, params, tuple(g.qubits), tuple(g.controls) if g.controls else None))
+            psi = tb.apply(psi, M, wh, w.N)
+        cache = getattr(sub, "_sampled_conditionals", None)
+        m, how = check_cond_cache(cache, psi, w.N, what + " sub-circuit with %d gates" % len(sub.gates))
+        if m:
+            return m, "cache"
+        if not how.startswith("cache") or how in ("cache-unreadable", "cache-layout-unknown"):
+            return None, how
+        n += len(cache)
+    return None, "cache%d" % min(n, 9)
+
+
+
 def fix_for(psi, qubits, N):
     """most likely outcome of ``qubits`` in the reference state (ties -> '0'):
     a fix with non-zero probability, chosen by the harness"""
@@ -412,42 +586,65 @@ def run_query(w, e, circ=None, psi=None):
         exp = tb.joint_prob(psi, where, fix, N)
         return _cmp("compute_marginal(%r, fix=%r)" % (where, fix), got, exp, TOL32), "marg:%d:%s" % (len(where), "fix" if fix else "nofix")
     if k == "sample":
-        C, seed, opt = e[1], e[2], e[3]
-        kw = {}
-        qubits = tuple(range(N))
-        if opt is not None:
-            kw[opt[0]] = opt[1] if not isinstance(opt[1], tuple) else list(opt[1])
-            if opt[0] == "qubits":
-                qubits = tuple(opt[1])
-        out = list(c.sample(C, seed=seed, **kw))
+        C, seed, opts = e[1], e[2], _sample_opts(e[3])
+        kw = {kk: (list(v) if isinstance(v, tuple) else v) for kk, v in opts}
+        qubits = tuple(dict(opts).get("qubits", range(N)))
+        with DrawRecorder() as rec:
+            out = list(c.sample(C, seed=seed, **kw))
+        tag = "+".join(kk for kk, _ in opts) or "default"
         if len(out) != C:
             return "sample yielded %d strings, asked %d" % (len(out), C), "sample"
+        out = ["".join(str(x) for x in b) for b in out]
         pm = tb.joint_prob(psi, qubits, None, N)
         for b in out:
-            b = "".join(str(x) for x in b)
             if len(b) != len(qubits) or set(b) - {"0", "1"}:
                 return "sample yielded malformed string %r" % (b,), "sample"
             if pm[tuple(int(x) for x in b)] < PMIN:
                 return "sample(%r) yielded %s on qubits %r which has reference probability %.2e" % (e[1:], b, qubits, pm[tuple(int(x) for x in b)]), "sample"
-        return None, "sample:%s" % (opt[0] if opt else "default")
+        if w.cls not in EXACT_CLASSES:
+            return None, "sample:%s" % tag  # MPS samplers: no conditionals cache
+        # (a) the distribution every group was actually DRAWN from
+        order = dict(opts).get("order")
+        if order is None:
+            order = tuple(c.calc_qubit_ordering(qubits))  # cached by sample() itself: no new state
+        gs = dict(opts).get("group_size", 10)
+        groups = [tuple(sorted(order[i : i + gs])) for i in range(0, len(order), gs)]
+        msg, how = check_draws(rec, out, qubits, groups, psi, N, "sample(%r)" % (e[1:],))
+        if msg:
+            return msg, "sample"
+        # (b) every cached conditional means what its key says
+        msg2, how2 = check_cond_cache(getattr(c, "_sampled_conditionals", None), psi, N, "sample(%r)" % (e[1:],))
+        return msg2, "sample:%s:%s:%s" % (tag, how, how2)
     if k == "sample_chaotic":
         C, mq, seed = e[1], e[2], e[3]
-        if isinstance(mq, int):
-            out = list(c.sample_chaotic(C, mq, seed=seed))
-        else:
-            rest = [q for q in range(N) if q not in mq]
-            out = list(c.sample_chaotic(C, list(mq), fix=fix_for(psi, rest, N), seed=seed))
+        with DrawRecorder() as rec:
+            if isinstance(mq, int):
+                out = list(c.sample_chaotic(C, mq, seed=seed))
+            else:
+                rest = [q for q in range(N) if q not in mq]
+                out = list(c.sample_chaotic(C, list(mq), fix=fix_for(psi, rest, N), seed=seed))
         for b in out:
             if tb.prob_of(psi, b) < PMIN:
                 return "sample_chaotic(%r) yielded %s which has reference probability %.2e" % (e[1:], b, tb.prob_of(psi, b)), "sample_chaotic"
-        return (None if len(out) == C else "sample_chaotic yielded %d strings" % len(out)), "sample_chaotic"
+        if len(out) != C:
+            return "sample_chaotic yielded %d strings" % len(out), "sample_chaotic"
+        where = tuple(sorted(c.calc_qubit_ordering()[:mq])) if isinstance(mq, int) else tuple(sorted(mq))
+        # one draw per sample: the marginal qubits given ALL the others
+        msg, how = check_draws(rec, out, tuple(range(N)), [where], psi, N, "sample_chaotic(%r)" % (e[1:],), given_rest=True)
+        if msg:
+            return msg, "sample_chaotic"
+        msg2, how2 = check_cond_cache(getattr(c, "_sampled_conditionals", None), psi, N, "sample_chaotic(%r)" % (e[1:],))
+        return msg2, "sample_chaotic:%s:%s" % (how, how2)
     if k == "sample_gbg":
         C, seed, gs = e[1], e[2], e[3]
         out = list(c.sample_gate_by_gate(C, seed=seed, group_size=gs))
         for b in out:
             if tb.prob_of(psi, b) < PMIN:
                 return "sample_gate_by_gate(%r) yielded %s which has reference probability %.2e" % (e[1:], b, tb.prob_of(psi, b)), "sample_gbg"
-        return (None if len(out) == C else "sample_gate_by_gate yielded %d strings" % len(out)), "sample_gbg"
+        if len(out) != C:
+            return "sample_gate_by_gate yielded %d strings" % len(out), "sample_gbg"
+        msg2, how2 = check_gbg_caches(w, c, gs, "sample_gate_by_gate(%r)" % (e[1:],))
+        return msg2, "sample_gbg:%s" % how2
     if k == "counts":
         C, seed = e[1], e[2]
         out = c.simulate_counts(C, seed=seed)
@@ -744,6 +941,10 @@ def query_alphabet(spec):
         qs += [("lexp", (0,), "dtype"), ("mps_sample", 3, 2)]
     if cls in EXACT_CLASSES:
         qs += [("sample_gbg", 2, 2, 10), ("uni",), ("get_params",)]
+        # two different measurement orders one after the other: the cached
+        # conditionals of the first must not be reused with another meaning
+        fwd = tuple(range(N))
+        qs += [("sample", 3, 2, (("order", fwd), ("group_size", 1))), ("sample", 3, 3, (("order", fwd[::-1]), ("group_size", 1)))]
     if lvl != "q":
         qs += [
             ("dense", True),
@@ -761,7 +962,14 @@ def query_alphabet(spec):
             ("counts", 4, 3),
             ("psi",),
         ]
+        qs += [("sample_chaotic", 2, (1,), 6)]
         if cls in EXACT_CLASSES:
+            qs += [
+                ("sample", 2, 8, (("qubits", (0, 1)), ("order", (0, 1)), ("group_size", 1))),
+                ("sample", 2, 9, (("qubits", (1, N - 1)), ("order", (N - 1, 1)), ("group_size", 1))),
+                ("sample", 2, 10, (("order", (1, 0) + tuple(range(2, N))), ("group_size", 2))),
+                ("sample_gbg", 2, 4, 2),
+            ]
             qs += [("sample", 2, 7, ("group_size", 1)), ("sample_gbg", 2, 3, 1), ("psi_simplified", "ADCRS"), ("rdm_lc", (N - 1, 0)), ("rdm_lc", (1,))]
         if cls in MPS_CLASSES:
             qs += [("fidelity",), ("lexp", (N - 1, 0), "dtype")]
@@ -1186,6 +1394,8 @@ def battery(spec):
     if cls in MPS_CLASSES:
         qs += [("fidelity",), ("amp", "0" * N)]
     if cls in EXACT_CLASSES:
+        fwd = tuple(range(N))
+        qs += [("sample", 2, 4, (("order", fwd), ("group_size", 1))), ("sample", 2, 5, (("order", fwd[::-1]), ("group_size", 1)))]
         qs += [("sample_gbg", 2, 3, 10)]
     return qs
 
@@ -1512,6 +1722,12 @@ def run(ctx):
         "numpy statevector U_n..U_1|psi0> from the harness' own record of what it applied, with hand-written textbook matrices (c07_gates.py, no quimb import); after every mutator: gate record + dense state (+ the original of copy(): record, dense state, one light-cone/canonical expectation); "
         "every query event is compared with the value computed from the reference; rejected calls: record, dense state and (MPS) a local expectation must be unchanged"
     )
+    ctx.notes["sampler_oracle"] = (
+        "support (every yielded string has reference probability >= 1e-9) PLUS, deterministically: (a) a harness-side wrapper around quimb.tensor.circuit.{exact,mps}.sample_bitstring_from_prob_ndarray records the probability array of every draw; "
+        "for sample / sample_chaotic each array must equal the reference conditional p(group | bits drawn before) resp. p(marginal qubits | all others) computed from the numpy statevector (groups = the order cut into group_size pieces, sorted inside a piece, as documented); "
+        "(b) every entry of circ._sampled_conditionals (and of the sub-circuit caches of sample_gate_by_gate, against the state of the sub-circuit's own recorded gates) with key layout (where, ((qubit, bit), ...)) must equal the reference conditional of exactly that meaning. "
+        "Conditionals whose prior has rescaled probability < 1e-2 are not asserted (single precision, 10x margin). Fallbacks are visible in the outcome strings: 'support-only(...)', 'cache-layout-unknown', 'cache-unreadable'."
+    )
     ctx.notes["not_asserted"] = [
         "positions in circ.gates of CircuitPermMPS (it records the physical sites a gate was applied to)",
         "circ.uni when some qubit wire carries no gate tensor (implicit identity) or psi0 is not a product state",
@@ -1564,6 +1780,12 @@ def run(ctx):
         for spec, depth in hs:
             seq.explore(ctx, spec, depth, label="H:" + spec_name(spec) + (":mut%d" % spec["max_mut"] if "max_mut" in spec else ""))
         ctx.subproducts.append("H: every history up to the listed depth per configuration (bounds.histories) complete unless a cap is listed")
+
+    # sampler queries whose conditionals could NOT be checked (seam or cache
+    # layout not as known): support only was asserted there
+    fb = {k: v for k, v in ctx.outcomes.items() if "sample" in k and ("support-only" in k or "layout-unknown" in k or "unreadable" in k)}
+    ctx.notes["sampler_oracle_fallbacks"] = fb or "none: every sample / sample_chaotic draw and every cached conditional was compared with the reference"
+    ctx.notes["sampler_queries_checked"] = int(sum(v for k, v in ctx.outcomes.items() if k.startswith("q:sample")))
 
 
 def replay(case):
